@@ -251,6 +251,13 @@ func cmdCheck(args []string) int {
 		}
 		obls = append(obls, &Obligation{Name: "lemma:" + lm.Name, Kind: "lemma", Func: "lemma", Prefix: len(x.q.body), Reach: "true", Goal: g, Desc: lm.Src, Q: x.q, Props: lm.Props})
 	}
+	if *only == "" {
+		for _, g := range guards {
+			if g.Hits == 0 {
+				undecided = append(undecided, fmt.Sprintf("guard matches no site in the current tree (target renamed or site removed?): %s", g.Src))
+			}
+		}
+	}
 	genS := time.Since(start).Seconds() - loadS
 
 	// ---- discharge
